@@ -3,8 +3,10 @@
 package pa
 
 import (
+	"bufio"
 	"fmt"
 	"os"
+	"reflect"
 	"strconv"
 	"strings"
 	"testing"
@@ -29,6 +31,8 @@ type ent struct {
 	Cb      func(via string, k int) interface{}                                // typed callback number k
 	StandIn func(via string) interface{}                                       // typed stand-in for As(..)
 	Tmpl    func(tmpl string) interface{}                                      // template instance for Struct / NewMethodMocker (nil: type not visible)
+	Orig    func() interface{}                                                 // &placeholder for Origin(..) (nil: not generated)
+	CbO     func(k int) interface{}                                            // callback that calls the placeholder and checks its result
 }
 
 // wireBase is what '@' abbreviates in the operation stream.
@@ -45,6 +49,15 @@ func expect(e *ent) int64 {
 	}
 	if e.NP == 3 { // two stack-passed arrays instead of (x, s)
 		v += -w.WantX*31 + w.WantArr[0]*31 + w.WantArr2[3]
+	}
+	if e.NP == 5 { // variadic, called with (WantX, WantX+1)
+		v += -w.WantX*31 + 2*31 + w.WantX
+	}
+	if e.NP == 6 { // (f float64, x int64)
+		v += int64(w.WantF * 2)
+	}
+	if e.NP == 4 { // one stack-passed [16]int64
+		v += -w.WantX*31 + w.WantArr16[3]*31
 	}
 	return v
 }
@@ -129,6 +142,7 @@ type handle struct {
 	via string
 	um  *mocker.UnexportedMethodMocker // directly constructed (outside the builder caches)
 	mm  *mocker.MethodMocker
+	org bool // Origin(&placeholder) is set on the mocker
 }
 
 // directTok handles `UM~pkg~sn~m~eid` and `MM~pkg~T~ptr~m~eid[~tmpl]`: old == nil constructs a fresh mocker object with
@@ -197,13 +211,15 @@ func stdArgs(np int, std bool) []interface{} {
 func lookupTok(b *mocker.Builder, f []string) (hd handle, res string) {
 	var eidS, pkg, raw, m, tmpl string
 	switch {
-	case (len(f) == 6 || len(f) == 7) && (f[0] == "SM" || f[0] == "SX"):
+	case (len(f) == 6 || len(f) == 7) && (f[0] == "SM" || f[0] == "SX" || f[0] == "SP"):
 		pkg, m, eidS, tmpl = f[1], f[4], f[5], "z"
 		if len(f) == 7 {
 			tmpl = f[6]
 		}
 	case len(f) == 5 && (f[0] == "ES" || f[0] == "EC"):
 		pkg, raw, m, eidS = f[1], f[2], f[3], f[4]
+	case len(f) == 4 && f[0] == "EF":
+		pkg, raw, eidS = f[1], f[2], f[3]
 	default:
 		return hd, "bad-op"
 	}
@@ -213,6 +229,9 @@ func lookupTok(b *mocker.Builder, f []string) (hd handle, res string) {
 	}
 	e := &registry[eid]
 	if (f[0] == "SM" || f[0] == "SX") && (e.Pkg != f[1] || e.T != f[2] || e.Ptr != (f[3] == "1")) {
+		return hd, "err:inconsistent-op"
+	}
+	if f[0] == "SP" && (e.Pkg != f[1] || e.T != f[2] || e.Ptr || f[3] != "1") {
 		return hd, "err:inconsistent-op"
 	}
 	if f[0] == "EC" && b.PkgName() != pkg {
@@ -225,6 +244,9 @@ func lookupTok(b *mocker.Builder, f []string) (hd handle, res string) {
 
 func applyCb(hd handle, k int) string {
 	cb := hd.e.Cb(hd.via, k)
+	if hd.org {
+		cb = hd.e.CbO(k)
+	}
 	return try(func() {
 		switch h := hd.h.(type) {
 		case mocker.ExportedMocker:
@@ -266,6 +288,12 @@ func runHist(steps []string) string {
 		switch {
 		case len(f) == 1 && f[0] == "R":
 			res = append(res, try(func() { b.Reset() }))
+			for hn, hd := range handles {
+				if hd.um == nil && hd.mm == nil {
+					hd.org = false
+					handles[hn] = hd
+				}
+			}
 		case f[0] == "L" && len(f) > 2:
 			hd, r := lookupTok(b, f[2:])
 			if r == "bad-op" || strings.HasPrefix(r, "err:inconsistent") || strings.HasPrefix(r, "err:curpkg") {
@@ -300,6 +328,25 @@ func runHist(steps []string) string {
 		case f[0] == "C" && len(f) == 2:
 			if hd, ok := get(); ok {
 				res = append(res, try(func() { hd.h.(mocker.Mocker).Cancel() }))
+				hd.org = false // Cancel forgets the origin (mocker.go:160)
+				handles[f[1]] = hd
+			}
+		case f[0] == "O" && len(f) == 2:
+			if hd, ok := get(); ok {
+				if hd.e.Orig == nil || (hd.via != "SM" && hd.via != "SX") {
+					res = append(res, "err:noorigin")
+					break
+				}
+				res = append(res, try(func() {
+					switch h := hd.h.(type) {
+					case mocker.ExportedMocker:
+						h.Origin(hd.e.Orig())
+					case mocker.UnExportedMocker:
+						h.Origin(hd.e.Orig())
+					}
+				}))
+				hd.org = true
+				handles[f[1]] = hd
 			}
 		case (f[0] == "T" && len(f) == 3) || (f[0] == "S" && len(f) == 4):
 			if hd, ok := get(); ok {
@@ -365,22 +412,97 @@ func runHist(steps []string) string {
 	return "r=" + strings.Join(res, ",") + " hit=" + strings.Join(hits, ",") + " after=" + clean
 }
 
-// TestVerifC06 runs goom's real method mocking on the operation stream.
+// runGuards executes a `c06.guard` history on the patch package directly: guards are created (patch.InstanceMethod) and
+// applied / unpatched later.
+func runGuards(steps []string) string {
+	if hits := snapshot(); len(hits) != 0 {
+		patch.UnpatchAll()
+		return "before=dirty:" + hits[0]
+	}
+	guards := map[string]*patch.Guard{}
+	var res []string
+	for k, tok := range steps {
+		f := strings.Split(tok, "~")
+		switch {
+		case f[0] == "GN" && len(f) == 7:
+			eid, err := strconv.Atoi(f[6])
+			if err != nil || eid < 0 || eid >= len(registry) || registry[eid].Tmpl == nil {
+				return "bad-op"
+			}
+			e := &registry[eid]
+			if e.Pkg != f[2] || e.T != f[3] || e.Ptr != (f[4] == "1") {
+				return "err:inconsistent-op"
+			}
+			res = append(res, try(func() {
+				g, err := patch.InstanceMethod(reflect.TypeOf(e.Tmpl("z")), f[5], e.Cb("SM", k))
+				if err != nil {
+					panic("proxy method error: " + err.Error())
+				}
+				guards[f[1]] = g
+			}))
+		case (f[0] == "GA" || f[0] == "GU") && len(f) == 2:
+			g, ok := guards[f[1]]
+			if !ok {
+				res = append(res, "err:nohandle")
+				break
+			}
+			if f[0] == "GA" {
+				res = append(res, try(g.Apply))
+			} else {
+				res = append(res, try(g.UnpatchWithLock))
+			}
+		default:
+			return "bad-op"
+		}
+	}
+	hits := snapshot()
+	for _, g := range guards {
+		try(g.UnpatchWithLock)
+	}
+	clean := "clean"
+	if after := snapshot(); len(after) != 0 {
+		clean = "dirty"
+	}
+	patch.UnpatchAll() // also empties the package's patch table
+	return "r=" + strings.Join(res, ",") + " hit=" + strings.Join(hits, ",") + " after=" + clean
+}
+
+// TestVerifC06 runs goom's real method mocking on the operation stream.  Only the steps (the text before the first " | ")
+// are tokenised; the entry and symbol tables behind it are for the model.
 func TestVerifC06(t *testing.T) {
 	out := vh.OpenOut()
 	defer out.Close()
 	from, _ := strconv.Atoi(os.Getenv("VERIF_C06_FROM"))
-	for _, op := range vh.ReadOps() {
-		if op.Idx < from || len(op.Toks) == 0 || op.Toks[0] != "c06.hist" {
+	f, err := os.Open(os.Getenv("VERIF_OPS"))
+	if err != nil {
+		t.Fatal(err)
+	}
+	defer f.Close()
+	sc := bufio.NewScanner(f)
+	sc.Buffer(make([]byte, 1<<20), 1<<28)
+	for idx := 0; sc.Scan(); idx++ {
+		if idx < from {
 			continue
 		}
-		var steps []string
-		for _, tk := range op.Toks[1:] {
-			if tk == "|" {
-				break
-			}
+		line := sc.Text()
+		if i := strings.Index(line, " | "); i >= 0 {
+			line = line[:i]
+		}
+		toks := strings.Fields(line)
+		if len(toks) == 0 || (toks[0] != "c06.hist" && toks[0] != "c06.guard") {
+			continue
+		}
+		steps := make([]string, 0, len(toks)-1)
+		for _, tk := range toks[1:] {
 			steps = append(steps, strings.ReplaceAll(tk, "@", wireBase))
 		}
-		out.Put(op.Idx, "%s", runHist(steps))
+		if toks[0] == "c06.guard" {
+			out.Put(idx, "%s", runGuards(steps))
+		} else {
+			out.Put(idx, "%s", runHist(steps))
+		}
+	}
+	if err := sc.Err(); err != nil {
+		t.Fatal(err)
 	}
 }
